@@ -115,7 +115,6 @@ theorem C13_uniform_validated (lo hi : F64) (h : Validate.distType (.uniform lo 
 theorem C13_uniform_lt_high (lo hi : F64) (w : UInt64) (v : FV) (h : uniformF64 lo hi w = some v) :
     lt v (val64 hi) = true := by
   unfold uniformF64 at h
-  simp only [] at h
   split at h
   · rename_i hlt
     injection h with h; subst h; exact hlt
@@ -126,5 +125,31 @@ theorem C13_uniform_const {σ : Type} (ρ : Oracle σ) (lo hi : F64) (start mx :
     (h : feq (val64 lo) (val64 hi) = true) :
     (distSample ρ ⟨.uniform lo hi, start, mx⟩ s).1 = Dist.clamp ⟨.uniform lo hi, start, mx⟩ lo := by
   simp [distSample, Dist.constUniform, h]
+
+/-- `debug_assert!(low <= res)` in the `gen_range` loop holds for every word -/
+theorem C13_uniform_ge_low (lo hi : F64) (h : Validate.distType (.uniform lo hi) = true)
+    (hne : feq (val64 lo) (val64 hi) = false) (w : UInt64) :
+    le (val64 lo) (uniformRes lo hi w) = true :=
+  uniformRes_ge_low h hne w
+
+/-- **termination witness**: every word whose mantissa bits `w >> 12` are zero ends the retry
+    loop at once (with `low`), so under a fair stream every iteration ends with positive
+    probability and the loop ends almost surely -/
+theorem C13_uniform_zero_word (lo hi : F64) (h : Validate.distType (.uniform lo hi) = true)
+    (hne : feq (val64 lo) (val64 hi) = false) (w : UInt64) (hw : w.toNat / 2 ^ 12 = 0) :
+    uniformF64 lo hi w = some (val64 lo) :=
+  uniformF64_zero_word h hne w hw
+
+/-- the stronger claim planned in DESIGN §6 ("any word whose top mantissa bit is clear ends the
+    loop") is FALSE: for the adjacent doubles `low = 2^-1021·(1+2^-52)`, `high = 2^-1021·(1+2^-51)`
+    the product `v·scale` is rounded on the subnormal grid, `res` lands on the midpoint and ties
+    to `high`; the word with `v = 3/8` is rejected (only `v ≤ 1/4` is accepted for this range) -/
+theorem C13_uniform_top_bit_claim_false :
+    Validate.distType (.uniform 0x0020000000000001 0x0020000000000002) = true ∧
+    unit64 0x6000000000000000 = 3 / 8 ∧
+    uniformF64 0x0020000000000001 0x0020000000000002 0x6000000000000000 = none ∧
+    uniformF64 0x0020000000000001 0x0020000000000002 0x4000000000000000 =
+      some (val64 0x0020000000000001) := by
+  refine ⟨by decide +kernel, by decide +kernel, by decide +kernel, by decide +kernel⟩
 
 end Mb.C13
